@@ -257,3 +257,21 @@ Proof. reflexivity. Qed.
 Theorem int_of_u32_32bit_wrapped_is_negative v :
   2147483648 <= v <= u32_max -> int_of_u32_32bit v < 0.
 Proof. unfold int_of_u32_32bit, int32_of_u32, u32_max. intros H. destruct (v <? 2147483648) eqn:E; zl. Qed.
+
+(* ---- facts about the model's getters used by the table of sites ----------- *)
+
+(* a nil (absent) sub-message reads as all defaults through the getters:
+   scalars 0, byte strings empty, sub-messages absent again *)
+Lemma absent_submessage_reads_as_defaults n k :
+  get_u32 k (get_sub n []) = 0%N /\ get_len k (get_sub n []) = [] /\
+  get_sub k (get_sub n []) = [] /\ has_sub k (get_sub n []) = false.
+Proof. repeat split. Qed.
+
+(* int(exponent.Int64()) is reached only with a value below 2^63: the
+   conversion is lossless *)
+Lemma rsa_exponent_fits_int64 e v :
+  rsa_exponent e = Some v -> v = be_val e /\ (v < 9223372036854775808)%N.
+Proof.
+  unfold rsa_exponent. destruct (be_val e <? 9223372036854775808)%N eqn:E; [|discriminate].
+  intros H. inversion H; subst. split; [reflexivity|]. apply N.ltb_lt. exact E.
+Qed.
